@@ -299,15 +299,9 @@ def check(P, R):
     ok = bool(rets) and all(isinstance(r.value, ast.Call) and call_attr(r.value) == 'upper' for r in rets)
     R.ob('C02.c', pm, rets[0] if rets else pm.node, ok, text='request.method upper-cased', detail='' if ok else 'the request verb is not upper-cased')
     # ... and read from the environ at dispatch time: a memoised verb is the verb of the first read, not the one the request carries when it is routed
-    decos = [src(d) for d in pm.node.decorator_list]
-    cached = [d for d in decos if d.split('(')[0].split('.')[-1] in ('cache_in', 'cached_property', 'lru_cache', 'cache')]
-    if cached or decos == ['property']:
-        R.ob('C02.a', pm, pm.node, not cached, text='request.method is computed from the environ on every read', detail='' if not cached else
-             f'request.method is memoised by `{cached[0]}` and nothing drops the memo when REQUEST_METHOD changes: after a before_request hook that reads the verb and '
-             f'then rewrites it (method override), the request is routed by the verb of the first read',
-             why='the request goes to the handler registered for its method', key_extra='method-fresh')
-    else:
-        R.undecided('C02.a', pm, pm.node, 'request.method', f'decorators {decos} are neither a plain property nor a known memoiser')
+    check_plain_property(P, R, 'C02.a', 'ombott.request_pkg.props_mixin:PropsMixin.method', 'request.method',
+                         'nothing drops the memo when REQUEST_METHOD changes: after a before_request hook that reads the verb and then rewrites it (method override), '
+                         'the request is routed by the verb of the first read', 'the request goes to the handler registered for its method')
     # the Allow header the handler gives to HTTPError(405, Allow=...) reaches the response whatever its value (empty when every method was removed)
     from . import c14 as _c14
     _c14.check_ctor_stores_every_header(P, R, 'C02.d', '405 carries an Allow header listing exactly the registered methods - also when there are none left')
@@ -454,3 +448,15 @@ def _join_ok(join):
     j = join[0]
     ok = j.func.value.value.strip() == ',' and j.args and isinstance(j.args[0], ast.Call) and dotted(j.args[0].func) == 'sorted'
     return ok, '' if ok else 'Allow is not ",".join(sorted(<registered methods>))'
+
+
+def check_plain_property(P, R, rid, fq, what, consequence, why):
+    """the accessor is a plain property: computed from the environ on every read, not memoised (in the environ or elsewhere)"""
+    pm = P.func(fq)
+    decos = [src(d) for d in pm.node.decorator_list]
+    cached = [d for d in decos if d.split('(')[0].split('.')[-1] in ('cache_in', 'cached_property', 'lru_cache', 'cache')]
+    if cached or decos == ['property']:
+        R.ob(rid, pm, pm.node, not cached, text=f'{what} is computed from the environ on every read', detail='' if not cached else
+             f'{what} is memoised by `{cached[0]}`: {consequence}', why=why, key_extra=f'plain-property:{pm.name}')
+    else:
+        R.undecided(rid, pm, pm.node, what, f'decorators {decos} are neither a plain property nor a known memoiser')
